@@ -10,7 +10,9 @@ STREAM_MODULES = ["LunaVerif.Lemmas.C07Stream", "LunaVerif.Lemmas.C07StreamCycle
                   "LunaVerif.Lemmas.C07StreamMain", "LunaVerif.Lemmas.C07StreamRun", "LunaVerif.Lemmas.C07StreamExamples",
                   "LunaVerif.Lemmas.C07StreamContracts", "LunaVerif.Lemmas.C07Closed",
                   "LunaVerif.Lemmas.C07Closed2", "LunaVerif.Lemmas.C07Legal"]
-LEAN_MODULES = ["LunaVerif.Props.C07"] + dev_ctl.CYC_MODULES + STREAM_MODULES
+# the C07 stage theorems stated of the cycle-level closed loop (only C07 audits this one)
+TRANSFER_MODULES = ["LunaVerif.Lemmas.C07Transfer"]
+LEAN_MODULES = ["LunaVerif.Props.C07"] + dev_ctl.CYC_MODULES + STREAM_MODULES + TRANSFER_MODULES
 DRIVER = dev_ctl.DRIVER
 REQUIRED_THEOREMS = ["stage_follows_setup", "data_in_only_after_in_setup", "in_token_answered_only_in_data_or_status_in", "out_data_answered_only_in_status_out", "setup_always_restarts", "other_endpoint_tokens_are_stutter", "other_endpoint_transactions_are_stutter",
                      "ctrl_stage_restarts_on_setup", "handler_restarts_on_setup", "handshake_forwarded_only_for_own_in_token",
@@ -20,7 +22,8 @@ REQUIRED_THEOREMS = ["stage_follows_setup", "data_in_only_after_in_setup", "in_t
                      "ready_cycle_wires", "transmitter_contract", "descriptorPacket_spec", "block_handler_contract", "dist_handler_contract",
                      "wires_indep", "sysStep_ignores_t", "cl_send", "closed_event", "closed_loop_refines_event_run",
                      "cl2_desc", "closed_event2", "closed2_refines_event_run",
-                     "readInv_legal", "legal_read_in_order", "closed2_refines_legal_run"]
+                     "readInv_legal", "legal_read_in_order", "closed2_refines_legal_run",
+                     "closed2_data_only_after_in_setup", "closed2_in_answered_only_in_data_or_status_in"]
 RULE_SYS = ("; next to it the two streamer models of the closed loops (Model/Usb2/ControlCycSys.lean: StreamGen.serStep wired to "
             "the handler model's transmitter wires; Desc.Block.step over Rom.layout of the case's descriptor table wired to "
             "value / length / start_position / start / ready, in the cases with GetDescriptorHandlerBlock) are compared with "
